@@ -182,6 +182,10 @@ def build():
     a(("span-5000-digits", '{|\n| colspan="' + "9" * 5000 + '" | a\n| b\n|}\n'))
     # a list-only table row with more than five items in which a nested list equals one of the cell's own lists
     a(("list-row-nested-equals-toplevel", "{|\n|\n* a\n** none\n* b\n* c\n* d\n* e\n* f\n\n* none\n|\n* x\n* y\n|}\n"))
+    # three levels of tables: a container whose cells hold only tables, one of which holds a table itself (> 500 characters inside)
+    filler = "lorem ipsum dolor " * 35
+    a(("tables-three-levels", "{|\n|\n{|\n| " + filler + "\n{|\n| innermost || cell\n|}\n|}\n|\n{|\n| second || table\n|}\n|}\n"))
+    a(("tables-three-levels-rows", "{|\n|\n{|\n| " + filler + "\n|-\n|\n{|\n| innermost\n|}\n|}\n|-\n|\n{|\n| second\n|}\n|}\n"))
     return T
 
 
